@@ -261,6 +261,53 @@ class JumpFromResidual(Obligation):
                   rho0 * (u0 - D) * (e0 + (u0 - D) * (u0 - D) / 2), when=zero)
 
 
+class NewtonContract(Obligation):
+    """the REAL Newton loop (newton_solver.solve), executed symbolically with a small iteration budget: it returns normally
+    only when both its convergence measures are within the tolerance, otherwise it raises -- "reports convergence" means
+    converged.  (The jump conditions at a converged state are the JumpFromResidual obligations: F(x*) = 0 => jump conditions.)"""
+
+    def __init__(self, rname, ename, maxit):
+        self.rname, self.ename, self.maxit = rname, ename, maxit
+        self.id = 'C16.newton.%s.%s.maxit%d' % (rname.replace('_noh_residual', ''), ename.replace('_eos', ''), maxit)
+        self.modules = [H.mod(EOSM), H.mod(RESM), H.mod(NEWM)]
+        self.extra_shim = {'print': H.quiet_print}
+        self.functions = [H.mod(NEWM).newton_solver.solve, getattr(H.mod(RESM), rname).F, getattr(H.mod(RESM), rname).F_prime_inv]
+        self.bounds = ('initial guess, initial state, EOS constants, tolerance symbolic; iteration budget %d (loop unrolled by the '
+                       'explorer: every exit of the while loop within the budget is a path)' % maxit)
+        self.skip_validation = True
+        self.replay_any_violation = True
+        self.max_paths = 120
+        self.timeout_s = 20
+        self.budget_s = 240
+
+    def build(self, mk):
+        eos = make_eos(self.ename, mk)
+        ic = {'velocity': mk('u0'), 'density': mk('rho0'), 'pressure': 0, 'symmetry': 0}
+        res = getattr(H.mod(RESM), self.rname)(ic, eos)
+        ns = H.mod(NEWM).newton_solver()
+        ns.set_function(res)
+        ns.set_new_tolerance(mk('tol'))
+        ns.set_new_max_iteration(self.maxit)
+        ns.set_new_initial_guess([mk('g_' + n) for n in RESID[self.rname]])
+        r = ns.solve(verbose=False)
+        return {'_raised': 0, 'residual': r['residual_achieved'], 'error': r['error_achieved'], 'its': r['number_of_iterations'],
+                '_tol': mk('tol')}
+
+    def on_exception(self, e):
+        return {'_raised': 1, '_exc': type(e).__name__}
+
+    def domain(self, V):
+        d = [T.gt(V('tol'), T.ZERO), T.gt(V('rho0'), T.ZERO), T.lt(V('u0'), T.ZERO)] + EOS[self.ename][1](V)
+        d += [T.gt(V('g_' + n), T.ZERO) for n in RESID[self.rname]]
+        return d
+
+    def claims(self, cx):
+        if cx['_raised']:
+            return                      # a solve that raises (IterationError, ZeroDensityError, ...) fails loudly: nothing to claim
+        cx.le('returned normally => |F(x)| within the tolerance', cx['error'], cx['_tol'])
+        cx.le('returned normally => last step within the tolerance', cx['residual'], cx['_tol'])
+
+
 def obligations(tier):
     obs = []
     for name in EOS:
@@ -274,4 +321,9 @@ def obligations(tier):
             for m in syms:
                 obs.append(ResidualJacobian(rname, ename, m))
                 obs.append(JumpFromResidual(rname, ename, m))
+    obs.append(NewtonContract('simplified_energy_noh_residual', 'ideal_gas_eos', 2))
+    obs.append(NewtonContract('simplified_pressure_noh_residual', 'ideal_gas_eos', 1))
+    if tier == 'thorough':
+        obs.append(NewtonContract('energy_noh_residual', 'ideal_gas_eos', 1))
+        obs.append(NewtonContract('simplified_energy_noh_residual', 'stiffened_gas_eos', 2))
     return obs
